@@ -20,6 +20,7 @@ func (sp *Spec) Files() map[string]string {
 	if v := sp.renderGeneratedVars(); v != "" {
 		out["zz_generated.go"] = v
 	}
+	sp.renderExtFiles(out)
 	for f := 0; f < sp.NFiles; f++ {
 		out[fmt.Sprintf("k%d.go", f)] = sp.renderDecl(f)
 	}
@@ -47,11 +48,16 @@ func mkName(t *Type) string {
 	return "mk_" + t.Name
 }
 
-// extImports renders the aliased imports (and a use of each) of the foreign types the program mentions.
-func (sp *Spec) extImports() (imports, uses string) {
+// extImports renders the aliased imports (and a use of each) of the foreign types among ids.
+// Every file imports only the foreign packages it mentions itself, so that different files of the
+// package import different packages of the same name.
+func (sp *Spec) extImports(ids []int) (imports, uses string) {
 	seen := map[string]bool{}
-	for i := range sp.Types {
-		t := &sp.Types[i]
+	for _, id := range ids {
+		if id < 0 || id >= len(sp.Types) {
+			continue
+		}
+		t := &sp.Types[id]
 		if t.Kind != KExt {
 			continue
 		}
@@ -78,13 +84,12 @@ func (sp *Spec) usesCtx() bool {
 
 func (sp *Spec) renderTypes() string {
 	var b strings.Builder
-	extImp, extUse := sp.extImports()
-	fmt.Fprintf(&b, "package %s\n\nimport (\n\t\"context\"\n%s\n\tsimrt %q\n)\n\nvar _ context.Context\nvar _ = simrt.Intern\n%s\n", sp.Pkg, extImp, SimrtImport, extUse)
+	fmt.Fprintf(&b, "package %s\n\nimport (\n\t\"context\"\n\n\tsimrt %q\n)\n\nvar _ context.Context\nvar _ = simrt.Intern\n\n", sp.Pkg, SimrtImport)
 	for i := range sp.Types {
 		t := &sp.Types[i]
 		switch t.Kind {
 		case KExt:
-			fmt.Fprintf(&b, "func %s(t string) *%s { return new(%s) }\n\n", mkName(t), t.Name, t.Name)
+			// constructed in its own file (ext_<alias>.go), the only one importing that package
 		case KPtr:
 			fmt.Fprintf(&b, "type %s struct{ Term string }\n\n", t.Name)
 			fmt.Fprintf(&b, "func (t *%s) TermOf() string {\n\tif t == nil {\n\t\treturn \"<nil>\"\n\t}\n\treturn t.Term\n}\n", t.Name)
@@ -131,6 +136,7 @@ func (sp *Spec) renderTypes() string {
 			fmt.Fprintf(&b, "\t}\n}\n\n")
 		}
 	}
+	b.WriteString("// Failure is an alias of error: providers may spell their error result either way.\ntype Failure = error\n\n")
 	// termOf: the term a value carries
 	b.WriteString("func termOf(v any) string {\n\tswitch x := v.(type) {\n\tcase nil:\n\t\treturn \"<nil>\"\n")
 	for i := range sp.Types {
@@ -148,8 +154,6 @@ func (sp *Spec) renderTypes() string {
 			fmt.Fprintf(&b, "\tcase %s:\n\t\treturn orZero(string(x))\n", t.Name)
 		case KInt:
 			fmt.Fprintf(&b, "\tcase %s:\n\t\treturn simrt.TermOfInt(int(x))\n", t.Name)
-		case KExt:
-			fmt.Fprintf(&b, "\tcase *%s:\n\t\t_ = x\n\t\treturn \"EXT\"\n", t.Name)
 		}
 	}
 	b.WriteString("\tcase string:\n\t\treturn orZero(x)\n\tcase int:\n\t\treturn simrt.TermOfInt(x)\n\tcase context.Context:\n\t\treturn \"CTX\"\n\t}\n\treturn \"<unknown>\"\n}\n\n")
@@ -159,13 +163,52 @@ func (sp *Spec) renderTypes() string {
 
 func (sp *Spec) renderProviders() string {
 	var b strings.Builder
-	extImp, extUse := sp.extImports()
-	fmt.Fprintf(&b, "package %s\n\nimport (\n\t\"context\"\n%s\n\tsimrt %q\n)\n\nvar _ context.Context\n%s\n", sp.Pkg, extImp, SimrtImport, extUse)
+	fmt.Fprintf(&b, "package %s\n\nimport (\n\t\"context\"\n\n\tsimrt %q\n)\n\nvar _ context.Context\nvar _ = simrt.Intern\n\n", sp.Pkg, SimrtImport)
 	for i := range sp.Providers {
 		p := &sp.Providers[i]
-		if p.Form == "struct" || p.Form == "value" {
+		if p.Form == "struct" || p.Form == "value" || sp.mentionsExt(p) {
 			continue
 		}
+		sp.renderProvider(&b, p)
+	}
+	return b.String()
+}
+
+func (sp *Spec) mentionsExt(p *Provider) bool {
+	for _, t := range append(append([]int{}, p.In...), p.Out...) {
+		if t >= 0 && sp.Types[t].Kind == KExt {
+			return true
+		}
+	}
+	return false
+}
+
+// renderExtFiles: one file per foreign package (its constructor) and one per provider that mentions foreign types.
+func (sp *Spec) renderExtFiles(out map[string]string) {
+	for i := range sp.Types {
+		t := &sp.Types[i]
+		if t.Kind != KExt {
+			continue
+		}
+		imp, _ := sp.extImports([]int{i})
+		alias := strings.SplitN(t.Name, ".", 2)[0]
+		out["ext_"+alias+".go"] = fmt.Sprintf("package %s\n\nimport (\n%s)\n\nfunc %s(t string) *%s { return new(%s) }\n", sp.Pkg, imp, mkName(t), t.Name, t.Name)
+	}
+	for i := range sp.Providers {
+		p := &sp.Providers[i]
+		if p.Form == "struct" || p.Form == "value" || !sp.mentionsExt(p) {
+			continue
+		}
+		var b strings.Builder
+		imp, _ := sp.extImports(append(append([]int{}, p.In...), p.Out...))
+		fmt.Fprintf(&b, "package %s\n\nimport (\n\t\"context\"\n%s\n\tsimrt %q\n)\n\nvar _ context.Context\nvar _ = simrt.Intern\n\n", sp.Pkg, imp, SimrtImport)
+		sp.renderProvider(&b, p)
+		out["pext_"+p.Name+".go"] = b.String()
+	}
+}
+
+func (sp *Spec) renderProvider(b *strings.Builder, p *Provider) {
+	{
 		var params, terms []string
 		ctxArg := "nil"
 		for j, in := range p.In {
@@ -184,24 +227,27 @@ func (sp *Spec) renderProviders() string {
 			vals = append(vals, fmt.Sprintf("%s(o[%d])", mkName(t), j))
 		}
 		if p.Fallible {
-			rets = append(rets, "error")
+			if p.ErrAlias {
+				rets = append(rets, "Failure")
+			} else {
+				rets = append(rets, "error")
+			}
 			zero = append(zero, "err")
 			vals = append(vals, "nil")
 		}
-		fmt.Fprintf(&b, "func %s(%s) (%s) {\n", p.Name, strings.Join(params, ", "), strings.Join(rets, ", "))
+		fmt.Fprintf(b, "func %s(%s) (%s) {\n", p.Name, strings.Join(params, ", "), strings.Join(rets, ", "))
 		args := ""
 		if len(terms) > 0 {
 			args = ", " + strings.Join(terms, ", ")
 		}
-		fmt.Fprintf(&b, "\to, err := simrt.Call(%q, %d, %v, %s%s)\n", p.Name, len(p.Out), p.Fallible, ctxArg, args)
+		fmt.Fprintf(b, "\to, err := simrt.Call(%q, %d, %v, %s%s)\n", p.Name, len(p.Out), p.Fallible, ctxArg, args)
 		if p.Fallible {
-			fmt.Fprintf(&b, "\tif err != nil {\n\t\treturn %s\n\t}\n", strings.Join(zero, ", "))
+			fmt.Fprintf(b, "\tif err != nil {\n\t\treturn %s\n\t}\n", strings.Join(zero, ", "))
 		} else {
-			fmt.Fprintf(&b, "\t_ = err\n")
+			fmt.Fprintf(b, "\t_ = err\n")
 		}
-		fmt.Fprintf(&b, "\treturn %s\n}\n\n", strings.Join(vals, ", "))
+		fmt.Fprintf(b, "\treturn %s\n}\n\n", strings.Join(vals, ", "))
 	}
-	return b.String()
 }
 
 // renderGeneratedVars: package-level variables in a file that carries another tool's "Code generated" header.
@@ -236,7 +282,11 @@ func (sp *Spec) useExpr(u *Use) string {
 			rets = append(rets, sp.Types[o].Expr())
 		}
 		if p.Fallible {
-			rets = append(rets, "error")
+			if p.ErrAlias {
+				rets = append(rets, "Failure")
+			} else {
+				rets = append(rets, "error")
+			}
 		}
 		e = fmt.Sprintf("kessoku.Provide(func(%s) (%s) { return %s(%s) })", strings.Join(params, ", "), strings.Join(rets, ", "), p.Name, strings.Join(args, ", "))
 	case "value":
@@ -283,7 +333,20 @@ func (sp *Spec) renderItems(items []Item, indent string, sets *[]string) string 
 
 func (sp *Spec) renderDecl(file int) string {
 	var b strings.Builder
-	extImp, extUse := sp.extImports()
+	var mentioned []int
+	for i := range sp.Injectors {
+		inj := &sp.Injectors[i]
+		if inj.File != file {
+			continue
+		}
+		mentioned = append(mentioned, inj.Ret)
+		for _, u := range inj.Flatten() {
+			if p := &sp.Providers[u.Prov]; p.Form == "lit" {
+				mentioned = append(append(mentioned, p.In...), p.Out...)
+			}
+		}
+	}
+	extImp, extUse := sp.extImports(mentioned)
 	fmt.Fprintf(&b, "package %s\n\nimport (\n\t\"context\"\n%s\n\t%q\n)\n\nvar _ context.Context\n%s\n", sp.Pkg, extImp, KessokuImport, extUse)
 	for i := range sp.Injectors {
 		inj := &sp.Injectors[i]
